@@ -638,6 +638,9 @@ def unwrap(ip, st, ci):
         if good:
             return v[4][0]
         return []  # path panics: dropped, obligation recorded as failed
+    if v[0] == "symopt" and v[1][0] == "checked":
+        oblig(st, ci, "unwrap", False, "unwrap/expect of %s, which is None whenever the %d-bit operation overflows" % (v[1][1], v[1][2][1][1]))
+        return v[1][2]
     raise Undecided("unwrap of %s" % (v[0],))
 
 
@@ -1197,3 +1200,25 @@ def fn_call(ip, st, ci):
 @prim("core::slice::<impl [T]>::chunks_exact")
 def chunks_exact_alias(ip, st, ci):
     return chunks_exact_mut(ip, st, ci)
+
+
+@prim("::checked_add", "::checked_sub", "::checked_mul")
+def checked_arith(ip, st, ci):
+    a, b = ci["args"]
+    op = ci["fn"]["name"]
+    if a[0] == "size" and b[0] == "size":
+        if op == "checked_add":
+            return vsome(vsize(a[1] + b[1]))
+        if op == "checked_mul":
+            return vsome(vsize(a[1] * b[1]))
+        out = []
+        for s2, ge in fork_on(st, ("ge", a[1] - b[1])):
+            out.append((s2, vsome(vsize(a[1] - b[1])) if ge else vnone()))
+        return out
+    if a[0] == "int" and b[0] == "int":
+        r = {"checked_add": T.iadd(a[1], b[1]), "checked_sub": T.isub(a[1], b[1])}.get(op)
+        if r is None:
+            r = T.ifn(a[1][1], "Mul", a[1], b[1])
+        # None exactly when the w-bit operation overflows: not decidable for symbolic operands
+        return ("symopt", ("checked", op, vint(r)))
+    raise Undecided("%s on %s,%s" % (op, a[0], b[0]))
